@@ -7,7 +7,8 @@
    INTEGER / REAL cell of the DECIMAL column (taken as the binary64 [cell] the engine reads).
    C doubles are Coq primitive floats (binary64, round to nearest even), C ints are Z.
    Definitions only; never extracted (evaluated inside Coq, harness/floatcases.py).  Facts:
-   Proofs/SqliteDate.v.
+   Proofs/SqliteDate.v (error bound of the arithmetic core), Proofs/SqliteDateText.v (parse,
+   calendar, printing).
 
    Read from the documented algorithm (date.c: struct DateTime with iJD = julian day number
    times 86400000 as a 64-bit integer; parseYyyyMmDd / parseHhMmSs / parseTimezone, computeJD
@@ -261,8 +262,9 @@ Definition sd_end_text (ts : list ascii) (cell : float) : res (list ascii) :=
 
 (* the instant printed, in microseconds since the epoch: what Model/Window.v's [sql_end_ms]
    stands for.  [sd_end_us] takes the calendar steps (text -> iJD, iJD -> text) as the exact
-   integer arithmetic they implement; Proofs/SqliteDate.v relates them to the text functions
-   above, and the run compares both with the engine on every row. *)
+   integer arithmetic they implement; Proofs/SqliteDateText.v proves that [sd_end_text] on the
+   stored TEXT prints exactly this instant, and the run compares both with the engine on every
+   row. *)
 Definition sd_end_us (t : Z) (cell : float) : res Z :=
   bind (sd_core (EPOCH_MS + t / 1000) cell) (fun j => Ok ((j - EPOCH_MS) * 1000)).
 
